@@ -38,6 +38,10 @@ func (fr *Frame) call(in ssa.Instruction, c *ssa.CallCommon, st *State, pc Term)
 			if len(res) == 1 {
 				vars["result"] = TV{res[0], sig.Results().At(0).Type()}
 			}
+			// argN: the arguments the call was made with (0 = receiver)
+			for i, a := range fr.lastArgs {
+				vars[fmt.Sprintf("arg%d", i)] = TV{a, fr.lastArgTypes[i]}
+			}
 			g, err := env.with(vars).evalBool(cs.Clause.E)
 			if err != nil {
 				fr.vc.specError(cs.Clause, err)
@@ -161,6 +165,7 @@ func (fr *Frame) callInner(in ssa.Instruction, c *ssa.CallCommon, st *State, pc 
 	ord := fr.callOrd[calleeName]
 	site := fmt.Sprintf("%s#%d", shortCallee(calleeName), ord)
 	fr.lastCallee, fr.lastOrd = calleeName, ord
+	fr.lastArgs, fr.lastArgTypes = args, argTypes
 	// call-site assertions of the enclosing contract
 	if fr.top && fr.contract != nil {
 		for _, cs := range fr.contract.CallSites {
@@ -951,6 +956,10 @@ func (fr *Frame) next(in *ssa.Next, st *State, pc Term) {
 	vc.assume(pc, implies(okT, and(not(isNil), sel(sel(has, m), k), not(sel(visited, k)))))
 	qk := "(forall ((qk " + ks + ")) (=> (select (select " + has.S + " " + m.S + ") qk) (select " + visited.S + " qk)))"
 	vc.assume(pc, implies(not(okT), or(isNil, Term{qk, SBool})))
+	// a map of positive length holds at least one key
+	_, _, lnH, _, _ := fr.mapHeaps(st, mt)
+	wk := fr.freshTyped(fr.name(in)+":somekey", mu.Key(), st, pc)
+	vc.assume(pc, implies(and(not(isNil), lt(tZero, sel(lnH, m))), sel(sel(has, m), wk)))
 	v := vc.def(fr.name(in)+":v", sel(sel(val, m), k))
 	vc.assume(pc, implies(okT, vc.typeFacts(v, mu.Elem(), st.wm)))
 	st.cells[key] = vc.def("visited", ite(okT, store(visited, k, tTrue), visited))
